@@ -149,8 +149,28 @@ func lunarYmd(l *calendar.Lunar) string {
 // lunarP converts a civil moment to its lunar object and, on every second day, switches the day-boundary
 // convention of the Lunar's (shared) eight-character object to 1 first: attributes of the lunar date, of its
 // Taoist/Buddhist views and of its hour object must not depend on that option.
+// It also rotates the route by which the object is obtained (conversion, direct construction from the lunar
+// fields, time.Time with a sub-second part): C01 states the objects are observably identical, so the attribute
+// rules must hold on each. A route that fails or lands elsewhere falls back to the conversion (C01/C07 judge it).
 func lunarP(s *calendar.Solar, j int) *calendar.Lunar {
 	l := s.GetLunar()
+	switch j % 3 {
+	case 1:
+		var l2 *calendar.Lunar
+		if _, p := try(func() {
+			l2 = calendar.NewLunar(l.GetYear(), l.GetMonth(), l.GetDay(), l.GetHour(), l.GetMinute(), l.GetSecond())
+		}); !p && l2 != nil && l2.GetSolar().ToYmdHms() == s.ToYmdHms() {
+			l = l2
+		}
+	case 2:
+		t := time.Date(s.GetYear(), time.Month(s.GetMonth()), s.GetDay(), s.GetHour(), s.GetMinute(), s.GetSecond(), 500000000, time.UTC)
+		if t.Year() == s.GetYear() && int(t.Month()) == s.GetMonth() && t.Day() == s.GetDay() {
+			var l2 *calendar.Lunar
+			if _, p := try(func() { l2 = calendar.NewLunarFromDate(t) }); !p && l2 != nil && l2.GetSolar().ToYmdHms() == s.ToYmdHms() {
+				l = l2
+			}
+		}
+	}
 	if j%2 == 0 {
 		l.GetEightChar().SetSect(1)
 	}
